@@ -227,7 +227,7 @@ class ExprParser:
     """Tiny boolean-expression translator for the arms of is_valid_len / can_accept_unary."""
 
     def __init__(self, text, bound):
-        self.toks = re.findall(r"\d+|\w+|&&|\|\||==|!=|>=|<=|[<>!&().]", text)
+        self.toks = re.findall(r"\d+|\w+|&&|\|\||==|!=|>=|<=|[<>!&().*]", text)
         if "".join(self.toks) != re.sub(r"\s+", "", text):
             raise TranslateError(f"unexpected characters in predicate arm {text!r}")
         self.i = 0
@@ -270,13 +270,22 @@ class ExprParser:
         return self.cmp()
 
     def nat_atom(self):
-        while self.peek() == "&":
+        while self.peek() in ("&", "*"):      # references and dereferences do not change the number
             self.eat()
         tok = self.eat()
         if re.fullmatch(r"\d+", tok):
             return tok
         if tok in self.bound and isinstance(self.bound[tok], str):
             return self.bound[tok]
+        if tok in self.bound and isinstance(self.bound[tok], tuple) and self.peek() == ".":
+            _, lo, hi = self.bound[tok]          # range.start / range.end
+            self.eat(".")
+            fld = self.eat()
+            if fld == "start":
+                return lo
+            if fld == "end":
+                return hi
+            raise TranslateError(f"unknown range field {fld!r}")
         raise TranslateError(f"unknown identifier {tok!r} in predicate arm")
 
     def cmp(self):
@@ -289,7 +298,8 @@ class ExprParser:
         if tok in ("true", "false"):
             self.eat()
             return tok
-        if tok in self.bound and isinstance(self.bound[tok], tuple):
+        if (tok in self.bound and isinstance(self.bound[tok], tuple)
+                and self.toks[self.i + 1:self.i + 3] == [".", "contains"]):
             _, lo, hi = self.bound[self.eat()]
             self.eat(".")
             self.eat("contains")
